@@ -173,25 +173,31 @@ def signOf : List Char → Bool × List Char
   | '+' :: r => (false, r)
   | s => (false, s)
 
-/-- number: sign? (digit+ ("." digit*)? | "." digit+) (("e"|"E") sign? digit+)?  — longest match -/
-def readNumber (allowSign : Bool) (s : List Char) : Option (Rat × List Char) :=
-  let (neg, s1) := signOf s
-  if !allowSign && s1.length != s.length then none else
-  let (ip, s2) := digits s1
-  let (fp, s3) := match s2 with
-    | '.' :: r => let d := digits r; if ip.isEmpty && d.1.isEmpty then ([], s2) else (d.1, d.2)
-    | _ => ([], s2)
-  if ip.isEmpty && fp.isEmpty then none else
-  let mant : Rat := ((natOf (ip ++ fp) : Nat) : Rat) / ((10 ^ fp.length : Nat) : Rat)
-  let mant := if neg then -mant else mant
+/-- ("." digit*)? after the integer part `ip`; a lone "." without digits on either side is not a number -/
+def fracStep (ip s2 : List Char) : List Char × List Char :=
+  match s2 with
+  | '.' :: r => if ip.isEmpty && (digits r).1.isEmpty then ([], s2) else ((digits r).1, (digits r).2)
+  | _ => ([], s2)
+
+/-- (("e"|"E") sign? digit+)? — an "e" not followed by digits is not part of the number -/
+def expStep (mant : Rat) (s3 : List Char) : Option (Rat × List Char) :=
   match s3 with
   | e :: r =>
     if e == 'e' || e == 'E' then
-      let (eneg, r1) := signOf r
-      let (ed, r2) := digits r1
-      if ed.isEmpty then some (mant, s3) else some (mant * pow10 eneg (natOf ed), r2)
+      if (digits (signOf r).2).1.isEmpty then some (mant, s3)
+      else some (mant * pow10 (signOf r).1 (natOf (digits (signOf r).2).1), (digits (signOf r).2).2)
     else some (mant, s3)
   | [] => some (mant, [])
+
+/-- number: sign? (digit+ ("." digit*)? | "." digit+) (("e"|"E") sign? digit+)?  — longest match -/
+def readNumber (allowSign : Bool) (s : List Char) : Option (Rat × List Char) :=
+  let s1 := (signOf s).2
+  if !allowSign && s1.length != s.length then none else
+  let ip := (digits s1).1
+  let fs := fracStep ip (digits s1).2
+  if ip.isEmpty && fs.1.isEmpty then none else
+  let mant : Rat := ((natOf (ip ++ fs.1) : Nat) : Rat) / ((10 ^ fs.1.length : Nat) : Rat)
+  expStep (if (signOf s).1 then -mant else mant) fs.2
 
 def readFlag : List Char → Option (Rat × List Char)
   | '0' :: r => some (0, r)
